@@ -44,6 +44,8 @@ import (
 //	          I<ka><kb><id> A := GetSymbol(key ka), B := GetSymbol(key kb), then A.Eval and B.Eval on row a<id>, decoded
 //	          round 5:  FA<j> FindMatching / JA<j> IteratorMatchingAllOf / FO<j> FindMatchingAnyOf / JO<j> IteratorMatchingAnyOf on the roles set index
 //	          with values slice number j (c18SharedVals), the SAME slice object for every reader; answer = 1|0 (caller's slice unchanged?) then the ids
+//	          round 6:  U<t> QueryIds with template t of c18SpellTemplates in a spelling (keyword case, white space inside keyword operators) that no
+//	          earlier parse of the process used
 //	cr <readers> <iters> <seed> <kind,kind,..> <tx> <tx> ...
 //	    the transactions are committed first (serially); then the harness evaluates, in one read transaction, every query of the
 //	    listed kinds (token s.0, the serial baseline); then <readers> goroutines, released together, each run <iters> read
@@ -388,6 +390,8 @@ func (e *c18Env) observe(tx *bbolt.Tx, q string) string {
 		return query(fmt.Sprintf(`even = %v and rank >= %d`, arg/10 == 1, arg%10))
 	case "Y":
 		return query(fmt.Sprintf(`ext = "x%d"`, arg))
+	case "U":
+		return query(c18FreshSpelling(arg))
 	case "FA", "FO", "JA", "JO":
 		// a read-only set-index lookup with a values slice other read transactions are using too; the first number of the
 		// answer says whether the caller's slice still holds what it held (post-condition of a read API)
@@ -522,7 +526,7 @@ func (e *c18Env) observe(tx *bbolt.Tx, q string) string {
 	return "bad-q"
 }
 
-var c18QKinds = []string{"FA", "FO", "JA", "JO", "N", "K", "R", "G", "H", "T", "iN", "iR", "lG", "lM", "E", "A", "P", "Q", "X", "Z", "Y", "V", "W", "M", "M", "I"}
+var c18QKinds = []string{"U", "U", "FA", "FO", "JA", "JO", "N", "K", "R", "G", "H", "T", "iN", "iR", "lG", "lM", "E", "A", "P", "Q", "X", "Z", "Y", "V", "W", "M", "M", "I"}
 
 var c18MvIds = []int{0, 1, 2, 3, 4, 5}
 
@@ -574,6 +578,8 @@ func c18Args(kind string, ids []int) []int {
 				r = append(r, b*10+k)
 			}
 		}
+	case "U":
+		return c18Range(0, len(c18SpellTemplates)-1)
 	case "FA", "FO", "JA", "JO":
 		return c18Range(0, len(c18SharedVals)-1)
 	case "M":
@@ -912,7 +918,10 @@ func c18Race(scenario string, goroutines, iters int) string {
 	// serial outcomes of the parse scenario's inputs
 	parseErrs := make([]int, len(c18ParseQueries))
 	parseFails := make([]bool, len(c18ParseQueries))
+	setFunctionNames := len(ast.SetFunctionNames) // the one exported table of the parsing layer: parsing must not grow it
+	lexErrs := 0
 	if scenario == "debugparse" {
+		lexErrs = len(zitiql.Parse(`rank = 1 # b`, ast.NewListener()))
 		prev := runtime.GOMAXPROCS(2)
 		defer runtime.GOMAXPROCS(prev)
 	}
@@ -1013,7 +1022,11 @@ func c18Race(scenario string, goroutines, iters int) string {
 					// every exported entry point of the parsing layer, with its debug / diagnostic variants
 					qi := r.intn(len(c18ParseQueries))
 					q := c18ParseQueries[qi]
-					switch m := r.intn(8); m {
+					switch m := r.intn(10); m {
+					case 8, 9: // a spelling of a keyword / keyword operator nobody has presented before
+						if _, err := ast.Parse(e.things, c18FreshSpelling(i+g)); err != nil {
+							wrong.Store("parse:fresh-spelling-rejected:" + strings.ReplaceAll(err.Error(), " ", "_"))
+						}
 					case 0: // diagnostic parse (DiagnosticErrorListener on the pooled parser)
 						_ = zitiql.ParseWithDebug(q, ast.NewListener(), true)
 					case 1:
@@ -1039,10 +1052,17 @@ func c18Race(scenario string, goroutines, iters int) string {
 				case "debugparse":
 					// repaired by 956c2a8: a diagnostic parse of an input with a syntax error right after (on the same pooled parser
 					// as) somebody's plain parse used to write into that caller's error collector
-					if g%2 == 0 {
+					switch g % 4 {
+					case 0:
 						_ = zitiql.ParseWithDebug(`name = `, ast.NewListener(), true)
-					} else if n := len(zitiql.Parse(`name = "n1"`, ast.NewListener())); n != 0 {
-						wrong.Store(fmt.Sprintf("parse:%d-errors-instead-of-0:valid-filter", n))
+					case 2: // a LEXER error (a character the lexer cannot tokenize) in a plain parse
+						if n := len(zitiql.Parse(`rank = 1 # b`, ast.NewListener())); n != lexErrs {
+							wrong.Store(fmt.Sprintf("parse:%d-errors-instead-of-%d:lexer-error-input", n, lexErrs))
+						}
+					default:
+						if n := len(zitiql.Parse(`name = "n1"`, ast.NewListener())); n != 0 {
+							wrong.Store(fmt.Sprintf("parse:%d-errors-instead-of-0:valid-filter", n))
+						}
 					}
 					// sync.Pool hands a goroutine back the object it has just put (per-P slot); with few Ps and a yield after every
 					// parse the pooled parser really changes hands between the diagnostic and the plain callers
@@ -1120,6 +1140,9 @@ func c18Race(scenario string, goroutines, iters int) string {
 	readers.Wait()
 	stop.Store(true)
 	wg.Wait()
+	if len(ast.SetFunctionNames) != setFunctionNames {
+		wrong.Store("exported-table-ast.SetFunctionNames-changed-size")
+	}
 	if w := wrong.Load(); w != nil {
 		return "wrong:" + strings.ReplaceAll(w.(string), " ", "_")
 	}
@@ -1179,7 +1202,7 @@ func c18GenTx(r *rng, gen []int) string {
 
 // the query kinds the readers of one cr case concentrate on (collisions need the same symbol / object at the same moment)
 var c18Focus = [][]string{
-	{"JA", "FA"}, {"JA", "JO", "FA", "FO", "iR"}, {"M"}, {"M", "I", "K"}, {"X", "Z"}, {"X", "Y", "V"}, {"A", "P"}, {"A", "P", "Q", "K"}, {"Y", "W", "Z"}, {"R", "H", "G"}, {"T", "K", "Q"}, {"N", "iN", "E", "lG", "lM", "iR"},
+	{"U"}, {"U", "K", "N"}, {"JA", "FA"}, {"JA", "JO", "FA", "FO", "iR"}, {"M"}, {"M", "I", "K"}, {"X", "Z"}, {"X", "Y", "V"}, {"A", "P"}, {"A", "P", "Q", "K"}, {"Y", "W", "Z"}, {"R", "H", "G"}, {"T", "K", "Q"}, {"N", "iN", "E", "lG", "lM", "iR"},
 }
 
 func c18GenCr(r *rng, focus []string, iters int) string {
